@@ -604,7 +604,8 @@ def r12_same_dataset_twice(ctx):
         "state.ongoing": ddict(set, {W: {SQ}}), "state.idle_workers": set(), "state.ongoing_total": 1, "state.remaining": 1,
     }
     ev = Obj("cascade.executor.msg.DatasetPublished", {"origin": W, "ds": DSQ_, "transmit_idx": None})
-    ip = Interp(repo, call_models={"cascade.controller.notify.consider_computable": lambda run, a, k, n, f: a[0], "cascade.controller.notify.is_last_output_of": lambda *a: True})
+    ip = Interp(repo, call_models={"cascade.controller.notify.consider_computable": lambda run, a, k, n, f: a[0], "cascade.controller.notify.is_last_output_of": lambda *a: True},
+                inline={"cascade.controller.notify.consider_purge"})
     n = 0
     for p in ip.explore(fn, env=env, args={"events": [ev], "job": job}):
         n += 1
